@@ -44,6 +44,9 @@ func decShards(prop string, props map[string]bool, levels []int) func(tier strin
 			for _, c := range decConfigs(tier) {
 				c, level := c, level
 				depth, maxBytes, cap := decDepth(tier, level)
+				if tier != "thorough" && level == 1 && (c.B >= 5 || (c.B == 0 && c.W >= 3)) {
+					depth-- // the Decoder-level state space of the larger buffers at full depth dominates the quick tier
+				}
 				shards = append(shards, engine.Shard{
 					Name: fmt.Sprintf("%s/level%d/W%d-B%d-pre%d", prop, level, c.W, c.B, c.PreCap),
 					Run: func(st *engine.Stats, col *engine.Collector) {
@@ -72,6 +75,7 @@ func decBounds(levels []int) func(tier string) map[string]any {
 			}
 			m[name] = map[string]any{"depth": d, "max_bytes_written": mb, "state_cap_per_config": sc}
 		}
+		m["quick_tier_note"] = "Decoder level: one level less for BufferSize >= 5 (and default BufferSize with WindowSize >= 3)"
 		m["alphabet"] = "state dependent, ~200 operations: WriteByte; Write of {0,1,2,free-1,free,free+1,B-W,B-W+1,B,B+1} bytes; WriteMatch m in {0,1,2,3,W,W+1,B,2^32-1} x o in {0,1,2,avail-1,avail,avail+1,W,W+1,2^32-1}; WriteBlock over ~130 one- and two-sequence blocks incl. malformed ones (offset 0, offset avail+1, 2^32-1, LitLen beyond literals, short literal slice) and oversized ones; Read {0,1,2,all}; WriteTo/Flush; Reset"
 		return m
 	}
@@ -87,7 +91,8 @@ func registerDecCheck(id string, levels []int, expl string) {
 		Shards: func(tier string) []engine.Shard {
 			if id == "C04" {
 				// exact expansion is also checked on real parser output (many sequences per block, several drains per call)
-				return append(bfs(tier), acceptShards(id, tier)...)
+				// ... and with a writer that fails or writes short (bytes must still be handed out exactly once)
+				return append(append(bfs(tier), acceptShards(id, tier)...), faultShards(id)(tier)...)
 			}
 			if id == "C17" {
 				// n, k, l and Off must also be exact when the writer fails or writes short in the middle of a call
@@ -100,7 +105,11 @@ func registerDecCheck(id string, levels []int, expl string) {
 				Level string `json:"level"`
 			}
 			json.Unmarshal(raw, &probe)
-			if probe.Level == "" && id == "C17" {
+			var isFault struct {
+				Contract *bool `json:"contract_abiding_writer"`
+			}
+			json.Unmarshal(raw, &isFault)
+			if probe.Level == "" && isFault.Contract != nil {
 				return replayFault(id, raw, col)
 			}
 			if probe.Level == "" {
